@@ -80,32 +80,54 @@ func gaussianAnswersScenario(cfg gaussCfg) engine.Scenario {
 		sign := uint32(c.Choose(2, "sign"))
 		f1 := floatAnswers[c.Choose(len(floatAnswers), "uniform-1")]
 		f2 := floatAnswers[(int(strip)+int(mag))%len(floatAnswers)]
-		at := []int{0, 5, 127}[int(strip)%3] // slot index of the window (127: last slot of the buffer)
+		late := int(strip)%3 == 2 // window near the end of the 1024-byte buffer: the slow paths then cross the refill
 		L := len(cfg.ch.mod) - 1
 		level := int(strip) % (L + 1)
 		mont := (strip/4)%2 == 1
 		bg := &stream{bgSeed: 31}
-		pre := make([]byte, 0, 8*(at+4))
-		for i := 0; i < 8*at; i++ {
-			pre = append(pre, bg.at(int64(i)))
+		word := zigSlot(strip, mag, sign, 0xdeadbeef)
+		var pre []byte
+		reads := 1
+		if !late {
+			at := []int{0, 5}[int(strip)%3]
+			for i := 0; i < 8*at; i++ {
+				pre = append(pre, bg.at(int64(i)))
+			}
+			pre = append(pre, word...)
+			pre = append(pre, le64(f1)...)
+			pre = append(pre, le64(f2)...)
+		} else {
+			// the sampler refills its buffer at every Read and keeps its position: after 7 reads of N=16 coefficients
+			// it stands at about slot 112 of chunk 7; slots 112..127 of that chunk hold the enumerated word, the chunk
+			// fetched by the refill in the middle of read 7 starts with the two enumerated uniforms
+			reads = 9
+			for i := 0; i < 8*(7*128+112); i++ {
+				pre = append(pre, bg.at(int64(i)))
+			}
+			for s := 112; s < 128; s++ {
+				pre = append(pre, word...)
+			}
+			pre = append(pre, le64(f1)...)
+			pre = append(pre, le64(f2)...)
 		}
-		pre = append(pre, zigSlot(strip, mag, sign, 0xdeadbeef)...)
-		pre = append(pre, le64(f1)...)
-		pre = append(pre, le64(f2)...)
 		env := newPRNG(&stream{prefix: pre, bgSeed: 31})
 		r := ringOf(cfg.ch.mod).AtLevel(level)
 		g := ring.NewGaussianSampler(env, r, ring.DiscreteGaussian{Sigma: cfg.sigma, Bound: cfg.bound}, mont)
-		pol := r.NewPoly()
-		g.Read(pol)
-		v, ok := gaussValues(c, "Read", cfg, r, level, mont, pol)
-		if !ok {
-			return
+		var v []*big.Int
+		for rd := 0; rd < reads; rd++ {
+			pol := r.NewPoly()
+			g.Read(pol)
+			var ok bool
+			if v, ok = gaussValues(c, "Read", cfg, r, level, mont, pol); !ok {
+				return
+			}
+			c.State("gaussian", env.off)
+		}
+		c.Count(reads)
+		if len(env.calls) > reads {
+			c.Cover("gaussian-refill", "second-buffer") // a refill in the middle of a Read
 		}
 		c.Cover("gaussian-answers", cfg.name)
-		if env.off > 1024 {
-			c.Cover("gaussian-refill", "second-buffer")
-		}
-		c.State("gaussian", env.off)
 		c.Outcome(name, fmt.Sprint(v))
 	}}
 }
@@ -207,8 +229,8 @@ func gaussianBigScenario() engine.Scenario {
 			pre = append(pre, zigSlot(127, 0x700000, sign, 0)...)
 		case 2: // base strip, slow path, smallest non-zero uniform: norm = rn + ln(2^53)/rn ≈ 14.1 > 6
 			pre = append(pre, zigSlot(0, 0xFFFFFF, sign, 0)...)
-			pre = append(pre, le64(1)...)
-			pre = append(pre, le64(1)...)
+			pre = append(pre, le64(1)...) // x = ln(2^53-1)/rn
+			pre = append(pre, le64(0)...) // y = +Inf: accepted
 			overBound = true
 		case 3: // base strip, slow path, uniform = 1: norm = rn ≈ 3.44 (> 2 sigma, < 6 sigma)
 			pre = append(pre, zigSlot(0, 0xFFFFFF, sign, 0)...)
@@ -290,7 +312,7 @@ func gaussianWideScenario() engine.Scenario {
 	name := "gaussian/value-wider-than-a-modulus"
 	return engine.Scenario{Name: name, Bound: -1, Fn: func(c *engine.Chooser) {
 		sign := uint32(c.Choose(2, "sign"))
-		mag := []uint32{0x400000, 0x100000, 0xC00000}[c.Choose(3, "magnitude")]
+		mag := []uint32{0x400000, 0x700000, 0xC00000}[c.Choose(3, "magnitude")]
 		ch := mixedChain() // 60, 30, 45 bits
 		r := ringOf(ch.mod)
 		L := r.MaxLevel()
